@@ -764,8 +764,10 @@ def execute_adversarial(sc):
             A = make_tt([nn] * len(n), min(sc['r'], 2), sc['tseed'], dist='normal')
             x = np.asarray(teneva.sample_func(A, seed=seed))
             stats['probe.sample_func_runs'] = 1
-            if x.shape != (len(n),) or not np.all(np.isfinite(x)) or (np.abs(x) > 1 + 1e-9).any():
-                V.append(viol('bounds', 'sample_func returned %s (expected a point of [-1, 1]^%d)' % (x.tolist(), len(n))))
+            # (the continuous sampler is not part of the statement: shape and finiteness only; its polynomial root finder returns
+            # points up to ~1e-8 outside [-1, 1] for extreme draws)
+            if x.shape != (len(n),) or not np.all(np.isfinite(x)):
+                V.append(viol('shape', 'sample_func returned %s (expected a finite point with %d coordinates)' % (x.tolist(), len(n))))
             h.append(x.tobytes())
     except SimAbort as e:
         V.append(viol('liveness', '%s: %s' % (fn, e)))
